@@ -28,11 +28,12 @@ Proof.
 Qed.
 
 (* ---- symbolic execution tactics ---------------------------------------------------------------------- *)
-Ltac wnorm := repeat (progress (cbn; unfold run_body, set_ws, lift_res, await_val)).
+Ltac wnorm := repeat (progress (cbn; unfold run_body, set_ws, lift_res, await_val, after_fmt, fmt_item)).
 
 Ltac rw_mode := repeat match goal with
   | H : c_mode _ = _ |- _ => progress rewrite !H
   | H : c_iscoro _ = _ |- _ => progress rewrite !H
+  | H : c_named _ = _ |- _ => progress rewrite !H
   end.
 
 Ltac dgv g :=
@@ -45,6 +46,14 @@ Ltac dif := match goal with |- context [if ?b then _ else _] => destruct b eqn:?
 Local Arguments rename_run : simpl never.
 Local Arguments run_fops : simpl never.
 Local Arguments do_call : simpl never.
+(* building a message is a no-op when repr is harmless *)
+Lemma fmt_vals_ok : forall Sigma (cx : ctx Sigma), repr_harmless cx -> forall l s, fmt_vals cx l s = (FmOk, s).
+Proof.
+  intros Sigma cx H. induction l as [|v l IH]; intros s; [reflexivity|].
+  cbn [fmt_vals]. destruct (H v s) as [r E]. rewrite E. apply IH.
+Qed.
+Local Arguments fmt_vals : simpl never.
+Ltac fmt_ok H := progress rewrite ?(fmt_vals_ok _ _ H).
 
 (* ---- what a call of the callee does, from behaves_as ------------------------------------------------------ *)
 Section Calls.
@@ -230,8 +239,10 @@ Section Levels.
   Variable g : base Sigma.
   Hypothesis Hwu : awaited_if_coro (cx_callee cx CFunc) = true.
   Hypothesis Hf : behaves_as g (cx_callee cx CFunc).
+  Hypothesis Hrepr : repr_harmless cx.
+  Hypothesis Hname : c_named (cx_callee cx CFunc) = true.
 
-  Ltac sym := repeat first [progress wnorm | progress rw_mode | call_full Hf | call_phase Hf | dif | dgv g].
+  Ltac sym := repeat first [progress wnorm | progress rw_mode | fmt_ok Hrepr | call_full Hf | call_phase Hf | dif | dgv g].
   (* the three situations: coroutine function + async wrapper; coroutine mode + sync wrapper; plain function *)
   Ltac sync_coro := intros ?a ?k [?c0 ?w0]; sym; try discriminate; fin.
   Ltac plain := intros ?a ?k [?c0 ?w0]; sym; eauto.
@@ -264,14 +275,14 @@ Section Levels.
   Lemma meets_deprecated :
     fops_safe false (cx_warn_prog cx) = true -> behaves_as g (as_callee d_deprecated cx).
   Proof.
-    intros Hs. enter Hwu; intros ?a ?k [?c0 ?w0]; wnorm; no_warn_error Hs; sym; try discriminate; first [fin | eauto].
+    intros Hs. enter Hwu; intros ?a ?k [?c0 ?w0]; wnorm; rw_mode; wnorm; no_warn_error Hs; sym; try discriminate; first [fin | eauto].
   Qed.
 
   Lemma meets_require_kwargs : forall go,
     behaves_as (spec_apply NRequireKwargs cx go g) (as_callee d_require_kwargs cx).
   Proof.
     intros go. unfold spec_apply.
-    enter Hwu; intros ?a ?k [?c0 ?w0]; wnorm; destruct (cx_assert_kw cx a k); sym; try discriminate; first [fin | eauto].
+    enter Hwu; intros ?a ?k [?c0 ?w0]; wnorm; rw_mode; wnorm; destruct (cx_assert_kw cx a k); sym; try discriminate; first [fin | eauto].
   Qed.
 
   Lemma meets_rename_kwargs : forall go,
@@ -283,23 +294,24 @@ Section Levels.
 
   (* the other function is a plain function *)
   Lemma meets_does_same : forall go,
+    c_named (cx_callee cx COther) = true ->
     plain_function (cx_callee cx CFunc) = true ->
     sync_function (cx_callee cx COther) = true -> behaves_as go (cx_callee cx COther) ->
     behaves_as (spec_apply NDoesSame cx go g) (as_callee d_does_same_as_function cx).
   Proof.
-    intros go Hp Hs Ho. unfold sync_function in Hs. apply andb_true_iff in Hs as [Hio Hmo].
+    intros go Hno Hp Hs Ho. unfold sync_function in Hs. apply andb_true_iff in Hs as [Hio Hmo].
     apply negb_true_iff in Hio. apply negb_true_iff in Hmo. unfold plain_function in Hp. apply eqb_prop in Hp.
     unfold spec_apply, spec_does_same.
     assert (Hcall : forall a k s, exists w, do_call cx COther a k false s = (fst (go a k (cs s)), Build_st (snd (go a k (cs s))) w))
       by (apply call_plain; assumption).
     enter Hwu; try discriminate Hp.
     - async_variant.
-      repeat first [progress wnorm | progress rw_mode | call_full Hf
+      repeat first [progress wnorm | progress rw_mode | fmt_ok Hrepr | call_full Hf
                    | match goal with |- context [do_call cx COther ?a ?k false ?s1] =>
                        let w := fresh "w" in let E := fresh "E" in destruct (Hcall a k s1) as [w E]; rewrite E; clear E end
                    | dif | dgv g | dgv go]; eauto.
     - intros ?a ?k [?c0 ?w0].
-      repeat first [progress wnorm | progress rw_mode | call_full Hf
+      repeat first [progress wnorm | progress rw_mode | fmt_ok Hrepr | call_full Hf
                    | match goal with |- context [do_call cx COther ?a ?k false ?s1] =>
                        let w := fresh "w" in let E := fresh "E" in destruct (Hcall a k s1) as [w E]; rewrite E; clear E end
                    | dif | dgv g | dgv go]; eauto.
@@ -307,15 +319,16 @@ Section Levels.
 
   (* both are coroutine functions *)
   Lemma meets_does_same_async : forall go,
+    c_named (cx_callee cx COther) = true ->
     c_iscoro (cx_callee cx CFunc) = true ->
     c_iscoro (cx_callee cx COther) = true -> c_mode (cx_callee cx COther) = true ->
     (forall a k s, exists w, do_call cx COther a k true s = (fst (go a k (cs s)), Build_st (snd (go a k (cs s))) w)) ->
     behaves_as (spec_apply NDoesSame cx go g) (as_callee d_does_same_as_function cx).
   Proof.
-    intros go Hif Hio Hmo Hcall. unfold spec_apply, spec_does_same.
+    intros go Hno Hif Hio Hmo Hcall. unfold spec_apply, spec_does_same.
     enter Hwu; try discriminate Hif.
     async_variant.
-    repeat first [progress wnorm | progress rw_mode | call_full Hf
+    repeat first [progress wnorm | progress rw_mode | fmt_ok Hrepr | call_full Hf
                  | match goal with |- context [do_call cx COther ?a ?k true ?s1] =>
                      let w := fresh "w" in let E := fresh "E" in destruct (Hcall a k s1) as [w E]; rewrite E; clear E end
                  | dif | dgv g | dgv go]; eauto.
@@ -345,9 +358,11 @@ Proof.
 Qed.
 
 Lemma unimplemented_never_calls : forall Sigma (cx : ctx Sigma) a k s,
+  c_named (cx_callee cx CFunc) = true ->
   use_wrapped d_unimplemented cx a k s = (RExc NotImplementedExceptionC (XFresh 4), s).
 Proof.
-  intros Sigma cx a k s. unfold use_wrapped, use_callee, as_callee. wnorm. destruct (c_mode (cx_callee cx CFunc)); reflexivity.
+  intros Sigma cx a k s Hn. unfold use_wrapped, use_callee, as_callee. wnorm. rw_mode. wnorm.
+  destruct (c_mode (cx_callee cx CFunc)); reflexivity.
 Qed.
 
 Lemma meets_mock : forall Sigma (cx : ctx Sigma) go g,
@@ -360,12 +375,13 @@ Proof.
 Qed.
 
 Lemma meets_unimplemented : forall Sigma (cx : ctx Sigma) go g,
+  c_named (cx_callee cx CFunc) = true ->
   behaves_as (spec_apply NUnimplemented cx go g) (as_callee d_unimplemented cx).
 Proof.
-  intros Sigma cx go g. unfold spec_apply, behaves_as, as_callee. cbn.
+  intros Sigma cx go g Hn. unfold spec_apply, behaves_as, as_callee. cbn.
   destruct (c_mode (cx_callee cx CFunc)) eqn:Em; cbn.
-  - intros a k [c0 w0]. wnorm. eexists. left. repeat split.
-  - intros a k [c0 w0]. wnorm. eauto.
+  - intros a k [c0 w0]. wnorm. rw_mode. wnorm. eexists. left. repeat split.
+  - intros a k [c0 w0]. wnorm. rw_mode. wnorm. eauto.
 Qed.
 
 (* using it like the twin *)
@@ -383,11 +399,13 @@ Qed.
 Section Stack.
   Variable Sigma : Type.
 
+  (* what every level needs: texts of values are harmless, and what is decorated has __name__ / __qualname__ *)
   Definition level_side (n : dname) (cx : ctx Sigma) (go : base Sigma) : Prop :=
+    repr_harmless cx /\ c_named (cx_callee cx CFunc) = true /\
     match n with
     | NDeprecated => fops_safe false (cx_warn_prog cx) = true
-    | NDoesSame => plain_function (cx_callee cx CFunc) = true /\ sync_function (cx_callee cx COther) = true
-                   /\ behaves_as go (cx_callee cx COther)
+    | NDoesSame => c_named (cx_callee cx COther) = true /\ plain_function (cx_callee cx CFunc) = true
+                   /\ sync_function (cx_callee cx COther) = true /\ behaves_as go (cx_callee cx COther)
     | NMock => plain_function (cx_callee cx CFunc) = true
     | _ => True
     end.
@@ -397,18 +415,24 @@ Section Stack.
     level_side n cx go ->
     behaves_as (spec_apply n cx go g) (as_callee (deco_of n) cx).
   Proof.
-    intros n cx go g Hwu Hsim Hside. destruct n; cbn [deco_of].
+    intros n cx go g Hwu Hsim (Hrepr & Hname & Hside). destruct n; cbn [deco_of].
     - now apply meets_trace.
     - now apply meets_timer.
     - now apply meets_count_calls.
     - now apply meets_deprecated.
     - now apply meets_trace_if_returns.
-    - destruct Hside as (Hp & Hs & Ho). now apply meets_does_same.
+    - destruct Hside as (Hno & Hp & Hs & Ho). now apply meets_does_same.
     - now apply meets_rename_kwargs.
     - now apply meets_overrides.
     - now apply meets_require_kwargs.
     - now apply meets_mock.
     - now apply meets_unimplemented.
+  Qed.
+
+  Lemma level_named : forall n (cx : ctx Sigma),
+    c_named (cx_callee cx CFunc) = true -> c_named (as_callee (deco_of n) cx) = true.
+  Proof.
+    intros n cx H. unfold as_callee. destruct (c_iscoro (cx_callee cx CFunc)); destruct n; cbn; try reflexivity; exact H.
   Qed.
 
   Lemma level_awaited : forall n (cx : ctx Sigma),
@@ -524,13 +548,17 @@ Section Counter.
   Lemma count_one_call : forall a k s,
     cnt_get me (ws_cnt (ws (snd (use_wrapped d_count_calls cx a k s)))) = (cnt_get me (ws_cnt (ws s)) + 1)%Z.
   Proof.
-    intros a k [c0 w0]. unfold use_wrapped, use_callee, as_callee. wnorm. unfold do_call.
-    match goal with |- context [c_call (cx_callee cx CFunc) ?a ?k ?s] =>
-      pose proof (Hcall CFunc a k s) as H1; destruct (c_call (cx_callee cx CFunc) a k s) as [r [c1 w1]] end.
-    cbn in H1. fold me in H1. rewrite cnt_get_set_same in H1.
-    destruct (c_mode (cx_callee cx CFunc)); destruct r; wnorm; try exact H1.
-    destruct (tok_args v) as [[a' k']|]; wnorm; try exact H1.
-    rewrite Hres. exact H1.
+    intros a k [c0 w0]. unfold use_wrapped, use_callee, as_callee. wnorm.
+    destruct (c_named (cx_callee cx CFunc)) eqn:En; wnorm.
+    - unfold do_call.
+      match goal with |- context [c_call (cx_callee cx CFunc) ?a ?k ?s] =>
+        pose proof (Hcall CFunc a k s) as H1; destruct (c_call (cx_callee cx CFunc) a k s) as [r [c1 w1]] end.
+      cbn in H1. fold me in H1. rewrite cnt_get_set_same in H1.
+      destruct (c_mode (cx_callee cx CFunc)); destruct r; wnorm; try exact H1.
+      destruct (tok_args v) as [[a' k']|]; wnorm; try exact H1.
+      rewrite Hres. exact H1.
+    - (* no __name__: the message of the print fails, after the call was counted *)
+      destruct (c_mode (cx_callee cx CFunc)); wnorm; fold me; apply cnt_get_set_same.
   Qed.
 
   (* ... and it writes nobody else's *)
@@ -539,13 +567,16 @@ Section Counter.
     (forall c a k s, cnt_get id (ws_cnt (ws (snd (c_resume (cx_callee cx c) a k s)))) = cnt_get id (ws_cnt (ws s))) ->
     cnt_get id (ws_cnt (ws (snd (use_wrapped d_count_calls cx a k s)))) = cnt_get id (ws_cnt (ws s)).
   Proof.
-    intros id a k [c0 w0] Hne Hc Hr. unfold use_wrapped, use_callee, as_callee. wnorm. unfold do_call.
-    match goal with |- context [c_call (cx_callee cx CFunc) ?a ?k ?s] =>
-      pose proof (Hc CFunc a k s) as H1; destruct (c_call (cx_callee cx CFunc) a k s) as [r [c1 w1]] end.
-    cbn in H1. fold me in H1. rewrite cnt_get_set_other in H1 by (intro E; apply Hne; now rewrite E).
-    destruct (c_mode (cx_callee cx CFunc)); destruct r; wnorm; try exact H1.
-    destruct (tok_args v) as [[a' k']|]; wnorm; try exact H1.
-    rewrite Hr. exact H1.
+    intros id a k [c0 w0] Hne Hc Hr. unfold use_wrapped, use_callee, as_callee. wnorm.
+    destruct (c_named (cx_callee cx CFunc)) eqn:En; wnorm.
+    - unfold do_call.
+      match goal with |- context [c_call (cx_callee cx CFunc) ?a ?k ?s] =>
+        pose proof (Hc CFunc a k s) as H1; destruct (c_call (cx_callee cx CFunc) a k s) as [r [c1 w1]] end.
+      cbn in H1. fold me in H1. rewrite cnt_get_set_other in H1 by (intro E; apply Hne; now rewrite E).
+      destruct (c_mode (cx_callee cx CFunc)); destruct r; wnorm; try exact H1.
+      destruct (tok_args v) as [[a' k']|]; wnorm; try exact H1.
+      rewrite Hr. exact H1.
+    - destruct (c_mode (cx_callee cx CFunc)); wnorm; fold me; apply cnt_get_set_other; intro E; apply Hne; now rewrite E.
   Qed.
 
   Lemma count_history : forall calls s,
@@ -568,6 +599,7 @@ Section Deprecated.
   Variable Sigma : Type.
   Variable cx : ctx Sigma.
   Hypothesis Hprog : cx_warn_prog cx = raise_warning_prog.
+  Hypothesis Hname : c_named (cx_callee cx CFunc) = true.       (* the message names the function *)
   (* the callee itself emits no DeprecationWarning *)
   Hypothesis Hcall : forall c a k s,
     n_deprecation (ws_log (ws (snd (c_call (cx_callee cx c) a k s)))) = n_deprecation (ws_log (ws s)).
@@ -577,7 +609,7 @@ Section Deprecated.
   Lemma deprecated_one_call : forall a k s,
     n_deprecation (ws_log (ws (snd (use_wrapped d_deprecated cx a k s)))) = S (n_deprecation (ws_log (ws s))).
   Proof.
-    intros a k [c0 w0]. unfold use_wrapped, use_callee, as_callee. wnorm. rewrite Hprog. unfold raise_warning_prog, run_fops.
+    intros a k [c0 w0]. unfold use_wrapped, use_callee, as_callee. wnorm. rw_mode. wnorm. rewrite Hprog. unfold raise_warning_prog, run_fops.
     wnorm. unfold do_call.
     match goal with |- context [c_call (cx_callee cx CFunc) ?a ?k ?s] =>
       pose proof (Hcall CFunc a k s) as H1; destruct (c_call (cx_callee cx CFunc) a k s) as [r [c1 w1]] end.
@@ -599,7 +631,7 @@ End Deprecated.
 
 (* ---- overrides ------------------------------------------------------------------------------------------------- *)
 Lemma overrides_decoration : forall enabled dir_of,
-  run_pre (d_pre d_overrides) enabled dir_of =
+  run_pre (d_pre d_overrides) enabled true dir_of =
   if dir_of "base_class"%string then PreContinue else PreRaise POverrideC.
 Proof. intros. cbn. destruct (dir_of "base_class"%string); reflexivity. Qed.
 
@@ -664,10 +696,11 @@ Section ClassCall.
   Lemma class_call_transparent : forall n (cx : ctx Sigma) fn g m acc self cls0 sub a o,
     (n = NTrace \/ n = NTimer) ->
     awaited_if_coro fn = true -> behaves_as g fn ->
+    repr_harmless cx -> c_named fn = true ->
     class_access_ok m acc = true -> orig_args m acc self cls0 sub a = Some o ->
     forall k, same_as_at (fun _ k c => g o k c) (class_call forall_cfg n cx fn m acc self cls0 sub) a k.
   Proof.
-    intros n cx fn g m acc self cls0 sub a o Hn Hwu Hsim Hok Ho k s.
+    intros n cx fn g m acc self cls0 sub a o Hn Hwu Hsim Hrepr Hname Hok Ho k s.
     pose proof (class_routing_ok m acc self cls0 sub a Hok) as Hr. unfold class_transparent_at in Hr.
     rewrite Ho in Hr. unfold class_call.
     destruct (deco_args forall_cfg m acc self cls0 sub a) as [[pre given]|] eqn:Ed; [|contradiction].
@@ -675,12 +708,14 @@ Section ClassCall.
     assert (Hs2 : behaves_as (fun a' k' c => g (pre ++ a') k' c) (cx_callee (with_callee cx (prepend pre fn)) CFunc))
       by (cbn; now apply prepend_behaves).
     assert (Hwu2 : awaited_if_coro (cx_callee (with_callee cx (prepend pre fn)) CFunc) = true) by exact Hwu.
+    assert (Hrepr2 : repr_harmless (with_callee cx (prepend pre fn))) by exact Hrepr.
+    assert (Hname2 : c_named (cx_callee (with_callee cx (prepend pre fn)) CFunc) = true) by exact Hname.
     assert (Hd : forall n, n = NTrace \/ n = NTimer ->
               exists w', use_wrapped (deco_of n) (with_callee cx (prepend pre fn)) given k s =
                          (fst (g (pre ++ given) k (cs s)), Build_st (snd (g (pre ++ given) k (cs s))) w')).
     { intros n' [->| ->]; cbn [deco_of]; unfold use_wrapped.
-      - apply (behaves_use _ _ _ (meets_trace _ _ _ Hwu2 Hs2) given k s).
-      - apply (behaves_use _ _ _ (meets_timer _ _ _ Hwu2 Hs2) given k s). }
+      - apply (behaves_use _ _ _ (meets_trace _ _ _ Hwu2 Hs2 Hrepr2 Hname2) given k s).
+      - apply (behaves_use _ _ _ (meets_timer _ _ _ Hwu2 Hs2 Hname2) given k s). }
     destruct (decorate_member forall_cfg m).
     - apply (behaves_use _ _ _ Hsim (pre ++ given) k s).
     - now apply Hd.
